@@ -160,7 +160,7 @@ func (r *Run) vfCall(fr *frame, fn *ssa.Function, args []value) value {
 		r.clockSet(fr, args[0])
 		return nil
 	case "vfAdvance":
-		r.clockAdvance(fr, args[0])
+		r.clockAdvanceStaged(fr, args[0])
 		return nil
 	case "vfQuiesce":
 		r.sched.quiesceWait(r.curThread(fr))
